@@ -35,7 +35,7 @@ which the tool rejects); nothing is bounded.
     `offsets[c] = (c+1)·2^dim`.
 
 What is NOT proved / is assumed:
-* the `sphere` grid; the dead `!compress_size` branches;
+* the dead `!compress_size` branches (the `sphere` grid has its own file: `Properties/C18Sphere.lean`);
 * that `n_cell_t` of the annulus is the truncation of `annulusQuotient` (`Scalar` has no double → integer conversion; `nt` is a parameter);
 * floating point: the field-level statements (`depth = z_max - z`, endpoints on `max`, …) hold over ordered fields, in doubles only up to
   rounding; the statements of `C18_coordinates` proper are exact for doubles as well because they repeat the code's expression;
